@@ -244,9 +244,9 @@ Ptrs(sl)   == IF Full(sl) THEN U.ptrs ELSE U.ptrsr
 CmpT(sl)   == IF Full(sl) THEN U.cmps ELSE U.cmpsr
 SplT(sl)   == IF Full(sl) THEN U.spls ELSE U.splsr
 NumsS(sl)  == IF Full(sl) THEN U.nums ELSE U.numsr
-IdxO(sl)   == IF Full(sl) THEN U.idx ELSE U.idxo       \* object-argument splice / ncmp
-CntO(sl)   == IF Full(sl) THEN U.cnt ELSE U.cnto
-NO(sl)     == IF Full(sl) THEN U.n ELSE U.no
+IdxO(sl)   == IF Full(sl) THEN U.idx ELSE IF sl = "a" THEN U.idxo ELSE U.idxr       \* object-argument splice / ncmp
+CntO(sl)   == IF Full(sl) THEN U.cnt ELSE IF sl = "a" THEN U.cnto ELSE U.cntr
+NO(sl)     == IF Full(sl) THEN U.n ELSE IF sl = "a" THEN U.no ELSE U.nr
 
 \* the rarer constructors are offered for re-initialisation only with the full universes
 Rare(sl, re, S) == IF Full(sl) \/ ~re THEN S ELSE {}
